@@ -552,7 +552,7 @@ Section Bound.
     destruct I1 as (I1 & Hno).
     match goal with |- ((if ?x then _ else _), _) = _ -> _ => destruct x eqn:Ec end; intros [= <- <-]; [|exact I1].
     assert (Ho : ~ over s1).
-    { apply Hno. apply andb_true_iff in Ec as [Ec _]. apply orb_true_iff in Ec as [Ec|Ec].
+    { apply Hno. apply andb_true_iff in Ec as [Ec _]. apply andb_true_iff in Ec as [_ Ec]. apply orb_true_iff in Ec as [Ec|Ec].
       - left. unfold dg_resume_size in Ec. subst s1 r1. destruct s; cbn in *. lia.
       - right. apply andb_true_iff in Ec as [_ Ec]. destruct buf'; [reflexivity|discriminate]. }
     pose proof I1 as (J1 & J2 & J3 & J4 & J5 & J6 & J7 & J8 & J9 & J10).
